@@ -18,6 +18,7 @@ use crate::entities::json::{
     err::JsonSerializationError, ContextJsonDeserializationError, ContextJsonParser,
     NullContextSchema,
 };
+use crate::entities::json::check_for_reserved_keys;
 use crate::entities::CedarValueJson;
 use crate::evaluator::{EvaluationError, RestrictedEvaluator};
 use crate::extensions::Extensions;
@@ -424,6 +425,13 @@ impl Context {
 
     /// Convert this `Context` to a JSON value
     pub fn to_json_value(&self) -> Result<serde_json::Value, JsonSerializationError> {
+        // The context is itself a record in the JSON format, so (like any other
+        // record) it cannot be represented if one of its keys is a reserved
+        // escape name: parsing the output back would misread it.
+        match self {
+            Self::Value(record) => check_for_reserved_keys(record.keys())?,
+            Self::RestrictedResidual(record) => check_for_reserved_keys(record.keys())?,
+        }
         match self {
             Self::Value(record) => record
                 .iter()
